@@ -58,7 +58,10 @@ def run(ctx):
         job(h.emit, "B-deep", "AclGen.cfg", SET="B", SimDepth=5, SimSample=8, simulate=40, depth=6, timeout=3000)
     else:
         job(h.emit, "D", "AclGen.cfg", SET="D", GenDepth=2, FullDepth=2, BatchDepth=0)
-        job(h.emit, "A", "AclGen.cfg", SET="A", GenDepth=1, FullDepth=0, BatchDepth=0)
+        # set A (two admins + writer) with the verdict of the WHOLE alphabet also in every depth-1 state: admin-vs-admin
+        # and admin-vs-member records against an account with a pending request (leaving member, joiner) are judged
+        # edge by edge (guard vectors), not only sampled
+        job(h.emit, "A", "AclGen.cfg", SET="A", GenDepth=1, FullDepth=1, BatchDepth=0)
         job(h.emit, "B-deep", "AclGen.cfg", SET="B", SimDepth=4, SimSample=8, simulate=6, depth=5)
     h.parallel(ctx, J)
     h.replay(ctx, "TestCounterexamples$", VERIF_CEX=os.path.join(ctx.scratch, "cex"))
